@@ -64,7 +64,7 @@ DELETE FROM wallet_siacoin_elements;
 DELETE FROM wallet_events;
 DELETE FROM host_stats WHERE stat IN (?,?); -- reset wallet stats since they are derived from the chain
 -- settings
-UPDATE global_settings SET last_scanned_index=NULL, last_announce_index=NULL, last_announce_address=NULL`, metricWalletBalance, metricWalletImmatureBalance)
+UPDATE global_settings SET last_scanned_index=NULL, last_announce_index=NULL, last_announce_address=NULL, last_v2_announce_hash=NULL`, metricWalletBalance, metricWalletImmatureBalance)
 		return err
 	})
 }
